@@ -9,7 +9,7 @@ from hypothesis import strategies as st
 
 # ----------------------------------------------------------------------------------------------
 # scoring schemes
-DYADIC = [0.0, 0.25, 0.5, 0.75, 1.0, 1.5, 2.0, 3.0, 5.0]
+DYADIC = [0.0, 0.0625, 0.125, 0.25, 0.5, 0.75, 1.0, 1.5, 2.0, 3.0, 5.0]
 DYADIC_POS = [x for x in DYADIC if x > 0]
 DECIMAL = [0.0, 0.1, 0.3, 1.0 / 3.0, 0.7, 1.1, 1.0, 2.2, 0.45]
 DECIMAL_POS = [x for x in DECIMAL if x > 0]
@@ -103,7 +103,7 @@ def any_schemes():
 def scheme_labels(s):
     b, t = s
     labs = []
-    dy = all((x * 4) == int(x * 4) for x in b + t)
+    dy = all((x * 1024) == int(x * 1024) for x in b + t)
     labs.append("scheme:dyadic" if dy else "scheme:decimal")
     if b[5] != t[5]:
         labs.append("scheme:B5!=T5")
